@@ -7,7 +7,9 @@ from vlib import ref_cfg, gen_cfg, trees
 ID = "C14"
 RULE = ("case = CFG description without useless symbols: either a random grammar reduced by the reference to its useful "
         "part, or a grammar built to be LL(1)-like (alternatives of a variable start with different terminals, optional "
-        "epsilon alternative, nullable non-empty bodies, left recursion injected sometimes). get_first_set / "
+        "epsilon alternative, nullable non-empty bodies, left recursion injected sometimes), or a layered 'cascade' "
+        "grammar of 3-6 variables whose bodies mention later variables only (nullable through non-empty bodies, predictions "
+        "through FOLLOW sets several levels up). get_first_set / "
         "get_follow_set on every variable must equal the textbook FIRST (epsilon iff nullable) and FOLLOW ($ for the "
         "start symbol); is_llone_parsable() must equal 'predict sets of each variable pairwise disjoint'; when LL(1): "
         "for all words <=3 over terminals+foreign symbol, all members of length 4 and their one-symbol extensions, "
@@ -42,13 +44,13 @@ def ll1_like(draw):
     prods = []
     for v in vs:
         lead = draw(st.lists(st.sampled_from(ts), min_size=1, max_size=len(ts), unique=True))
+        if len(vs) > 3 and draw(st.booleans()):
+            lead = lead[:1]
         for t in lead:
             tail = draw(st.lists(st.one_of(st.sampled_from(vs).map(lambda x: ["V", x]),
                                            st.sampled_from(ts).map(lambda x: ["T", x])), max_size=2))
             prods.append([v, [["T", t]] + tail])
         k = draw(st.integers(0, 4))
-        if len(vs) > 3 and draw(st.booleans()):
-            lead = lead[:1]
         if k == 0 or (len(vs) > 3 and draw(st.integers(0, 2)) == 0):
             prods.append([v, []])
         elif k == 1 and len(vs) > 1:
@@ -60,10 +62,47 @@ def ll1_like(draw):
     return reduce_useful(d)
 
 
+@st.composite
+def cascade(draw):
+    """layered grammars V0..Vk-1: a body only mentions later variables, so the alternatives of a variable start
+    differently and conflicts come from FOLLOW only; many variables are nullable, some only through a non-empty
+    body, and predictions have to go through FOLLOW sets several levels up"""
+    k = draw(st.sampled_from([6, 5, 4, 3]))
+    vs = ["S", "T", "A", "B", "C", "E"][:k]
+    own = ["s", "t", "a", "b", "c", "e"][:k]
+    seps = ["d", "x"]
+    prods = []
+    for i, v in enumerate(vs):
+        later = vs[i + 1:]
+        alts = []
+        if later:
+            form = draw(st.sampled_from(["own+cascade", "cascade", "own+eps", "own+cascade+eps", "cascade+eps", "own"]))
+        else:
+            form = draw(st.sampled_from(["own+eps", "own"]))
+        if "own" in form:
+            tail = []
+            if later and draw(st.integers(0, 3)) == 3:
+                tail = [["V", draw(st.sampled_from(later))]]
+            alts.append([["T", own[i]]] + tail)
+        if "cascade" in form:
+            n = min(len(later), draw(st.sampled_from([2, 1, 3])))
+            idx = sorted(draw(st.lists(st.integers(0, len(later) - 1), min_size=n, max_size=n, unique=True)))
+            body = [["V", later[j]] for j in idx]
+            if draw(st.sampled_from([0, 0, 1])) == 1:
+                body.append(["T", draw(st.sampled_from(seps))])
+            alts.append(body)
+        if "eps" in form:
+            alts.append([])
+        for b in alts:
+            prods.append([v, b])
+    d = {"start": "S", "prods": prods, "how": "ctor", "vpool": "cascade", "tpool": "abc"}
+    return reduce_useful(d)
+
+
 def strategy(tier, flags):
     rnd = gen_cfg.cfg_desc(var_pools=["std", "long"], term_pools=["ab", "abc", "tok"], max_prods=7, max_body=3,
                            allow_text=False).map(reduce_useful)
-    return st.one_of(ll1_like(), rnd, ll1_like()).filter(lambda d: len(d["prods"]) > 0).map(lambda d: {"g": d})
+    return st.one_of(ll1_like(), rnd, cascade(), ll1_like()).filter(lambda d: len(d["prods"]) > 0).map(lambda d: {"g": d})
 
 
 EXHAUSTIVE_SCOPE = {
